@@ -35,16 +35,23 @@ ASSUMPTIONS = ["parent and 1-3 partners of an added atom come from the harness' 
                "tolerance = 0.02 A + local input distortion (largest discrepancy between structure and template over "
                "1-2/1-3 distances among the input heavy atoms within two bonds of the parent), x1.5 for 1-3 distances; "
                "exact-template synthetic inputs therefore get 0.02/0.03 A",
-               "water hydrogens: bond length within 0.06 A of the template value (the optimiser builds O-H = 1.0 A)"]
+               "water hydrogens: bond length within 0.06 A of the template value (the optimiser builds O-H = 1.0 A)",
+               "the templates the loader hands to the build stages are physically plausible: every template hydrogen lies "
+               "0.90-1.15 A from the atom it is bonded to, geminal hydrogens are at least 100 degrees apart, bonded heavy "
+               "atoms are 1.15-1.90 A apart (the 194 "
+               "definitions of the unchanged tree lie within 0.96-1.09 A, >= 108.7 degrees, 1.22-1.83 A): a slipped digit "
+               "in a data file would otherwise become 'what the template prescribes'"]
 MIN = {"quick": {"added_atoms_checked": 10000, "fit_events": 9000, "create_atom_events": 12000,
-                 "rebuilt_heavy_atoms_checked": 150, "torsion_calls_invivo": 200, "pka_route_runs": 15},
+                 "rebuilt_heavy_atoms_checked": 150, "torsion_calls_invivo": 200, "pka_route_runs": 15,
+                 "template_atoms_checked": 3000},
        "thorough": {"added_atoms_checked": 400000, "fit_events": 300000, "create_atom_events": 400000,
-                    "rebuilt_heavy_atoms_checked": 5000, "torsion_calls_invivo": 8000, "pka_route_runs": 800}}
+                    "rebuilt_heavy_atoms_checked": 5000, "torsion_calls_invivo": 8000, "pka_route_runs": 800,
+                    "template_atoms_checked": 3000}}
 OPTIMISABLE = {"SER", "THR", "TYR", "CYS", "HIS", "ASN", "GLN", "ASP", "GLU", "LYS", "ARG"}
 
 
 def cases(tier, seed):
-    out = []
+    out = [{"kind": "templates", "seed": seed}]
 
     def opts(rng, spec):
         o = [f"--ff={spec['ff']}"]
@@ -369,7 +376,48 @@ def atom_class(tr, n, pos):
     return f"{tr['base']}/{'H' if n.startswith('H') else 'heavy'}"
 
 
+def run_templates(res):
+    """The definitions as the real loader builds them (AA.xml / NA.xml with PATCHES.xml applied): each template must be
+    a plausible molecule, since every added atom is placed by fitting it."""
+    import itertools
+    import numpy as np
+    from pdb2pqr import io as p2io
+    definition = p2io.get_definitions()
+    for name, ref in sorted(definition.map.items()):
+        if not hasattr(ref, "map") or name.endswith("WAT") and name != "WAT":
+            continue        # terminal patches applied to water by the generic patch loop are never used
+        xyz = {an: np.array([a.x, a.y, a.z], dtype=float) for an, a in ref.map.items()}
+        res.count("templates_checked")
+        for an, a in ref.map.items():
+            res.count("template_atoms_checked")
+            for b in a.bonds:
+                if b not in xyz or not an < b and not (an.startswith("H") and not b.startswith("H")):
+                    continue
+                d = float(np.linalg.norm(xyz[an] - xyz[b]))
+                h = an.startswith("H") or b.startswith("H")
+                lo, hi = (0.90, 1.15) if h else (1.15, 1.90)
+                if not lo <= d <= hi:
+                    res.violate(f"template/implausible-bond/{'hydrogen' if h else 'heavy'}", f"template {name}: {an}-{b} "
+                                f"is {d:.3f} A (plausible {lo}-{hi}); every atom built from this template inherits it",
+                                template=name, atoms=[an, b], distance=round(d, 4))
+            hs = [h for h in a.bonds if h.startswith("H") and h in xyz]
+            for h1, h2 in itertools.combinations(sorted(hs), 2):
+                v1, v2 = xyz[h1] - xyz[an], xyz[h2] - xyz[an]
+                c = float(np.dot(v1, v2) / (np.linalg.norm(v1) * np.linalg.norm(v2) + 1e-12))
+                ang = float(np.degrees(np.arccos(max(-1.0, min(1.0, c)))))
+                if ang < 100.0:
+                    res.violate("template/implausible-geminal-angle", f"template {name}: {h1}-{an}-{h2} is {ang:.1f} "
+                                f"degrees", template=name, atoms=[h1, an, h2], angle=round(ang, 2))
+        res.nt("template", name)
+        res.cell("template", "na" if name[:2] in ("RA", "RC", "RG", "RU", "DA", "DC", "DG", "DT") else "aa")
+    res.sample = {"kind": "templates"}
+
+
 def run_case(spec):
+    if spec.get("kind") == "templates":
+        res = Res()
+        run_templates(res)
+        return res
     geom.install()
     res = Res()
     m = workload.materialise(spec)
